@@ -1,7 +1,8 @@
-\* C05 as coded at the pin, every break of OneDeclaration goes through one of the known root causes
+\* C05 sanitisers as coded at the pin: TLC is EXPECTED to report OneDeclaration (known findings)
 CONSTANTS
-  Classes <- ClassesDef
+  Classes <- FontOnly
   Contexts <- ContextsDef
+  Alphabet <- SmallAlphabet
   RegularExtra <- NoExtra
   AngleGuard = TRUE
   FontFix = FALSE
@@ -13,5 +14,5 @@ INIT Init
 NEXT Next
 VIEW View
 
-INVARIANTS TypeOK OneDeclarationBut InnocuousOnReject
+INVARIANTS TypeOK OneDeclaration InnocuousOnReject
 CHECK_DEADLOCK FALSE
